@@ -31,7 +31,7 @@ RULE = ("seeded (period, max_age in {1,1.5,3,10}, initial/max buffer lengths {1,
         "distinct = canonical case JSON; non-trivial = >=5 ticks compared with a non-empty expected set and >=1 tick "
         "with an empty one or an excluded future/old sample")
 REQUIRED_BUCKETS = ["tick-nonempty", "tick-empty(None)", "sample-exactly-T", "sample-exactly-T-minus-age",
-                    "future-sample-excluded", "old-sample-excluded", "none-or-nan-input", "input-period-estimated",
+                    "future-sample-excluded", "old-sample-excluded", "none-or-nan-input", "zero-valued-input", "input-period-estimated",
                     "buffer-resized", "buffer-evicted", "upsampling", "downsampling", "silence>max-age"]
 REQUIRED_COUNTERS = ["ticks_compared", "function_calls_observed"]
 ASSUMPTIONS = ["time-ordered inputs; virtual clock"]
@@ -61,7 +61,7 @@ def gen(rng: Any, tier: str, i: int) -> Any:
             r = rng.random()
             tsk = rng.choices(["now", "past", "future", "far-future", "grid-next", "grid-prev", "grid-age-edge"],
                               weights=[50, 10, 8, 5, 10, 7, 10])[0]
-            vk = "ok" if r > 0.15 else rng.choice(["none", "nan"])
+            vk = "ok" if r > 0.15 else rng.choice(["none", "nan", "zero"])
             ev.append([d, tsk, vk])
         series.append({"add_at": 0.0, "events": ev, "ip": ip})
     return {"period": period, "align": 0.0, "start_offset": rng.choice([0.0, 0.3, 0.999999, period / 2, 17.25]),
@@ -82,8 +82,10 @@ def check(case: dict[str, Any], rec: Any) -> None:
             rec.bucket("downsampling")
         if s["ip"] > p:
             rec.bucket("upsampling")
-        if any(v != "ok" for _, _, v in s["events"]):
+        if any(v in ("none", "nan") for _, _, v in s["events"]):
             rec.bucket("none-or-nan-input")
+        if any(v == "zero" for _, _, v in s["events"]):
+            rec.bucket("zero-valued-input")
         if any(d > age * max(p, s["ip"]) for d, _, _ in s["events"]):
             rec.bucket("silence>max-age")
     for i, lst in r["sinks"].items():
@@ -118,6 +120,10 @@ def check(case: dict[str, Any], rec: Any) -> None:
             exp = [x for x in model if lo < x["ts"] <= T]
             if tie:
                 rec.count("ticks_skipped(arrival at the tick instant)")
+                continue
+            if tnow >= r["stopped_at"]:
+                # drain phase: the harness has cancelled its producers (possibly between a send and its log entry)
+                rec.count("ticks_skipped(after the producers were stopped)")
                 continue
             rec.count("ticks_compared")
             if any(x["ts"] == T for x in model):
@@ -154,7 +160,8 @@ def check(case: dict[str, Any], rec: Any) -> None:
                 rec.violation("sample-stamped-after-T-passed-to-function", w)
             if any(v != v for _, v in got):
                 rec.violation("NaN-passed-to-function", w)
-            if [v for _, v in got] != [x["value"] for x in exp]:
+            # identity by timestamp (strictly increasing per series) and value
+            if [(ts, v) for ts, v in got] != [(x["ts"], x["value"]) for x in exp]:
                 rec.violation("function-arguments-differ-from-reference-selection", w)
     rec.nontrivial(n_nonempty >= 5 and n_interesting >= 1)
     rec.observed({"calls": len(calls), "ticks": {str(i): len(v) for i, v in r["sinks"].items()},
